@@ -3,7 +3,7 @@
 export GOFLAGS=-mod=mod GOPROXY=off GOSUMDB=off GOTOOLCHAIN=local
 P=$1; K=$2; W=/tmp/seed/$P; O=/tmp/seed/out/$P; ID=${P}_s$K; D=/verif/seeded/$ID
 cd $W || exit 1
-git checkout -q -- . ; rm -f zz_demo_test.go
+git checkout -q -- "*.go" ":!*_verif.go" 2>/dev/null; rm -f zz_demo_test.go
 cp $O/demo${K}_test.go zz_demo_test.go
 clean=$(go test -vet=off -count=1 -run "TestSeedDemo$K\$" . 2>&1 | tail -1)
 git apply $O/change$K.diff || { echo "$ID: patch does not apply"; exit 1; }
@@ -11,7 +11,7 @@ build=$(go build ./... 2>&1 | tail -1)
 withchg=$(go test -vet=off -count=1 -run "TestSeedDemo$K\$" . 2>&1 | tail -1)
 rm -f zz_demo_test.go
 suite=$(go test -vet=off -count=1 ./... 2>&1 | grep -v "no test files" | tail -1)
-git checkout -q -- .
+git checkout -q -- "*.go" ":!*_verif.go"
 echo "$ID clean=[$clean] with=[$withchg] suite=[$suite] build=[$build]"
 case "$clean" in ok*) ;; *) echo "  REJECT: demo fails on clean tree"; exit 1;; esac
 case "$withchg" in FAIL*|*FAIL*) ;; *) echo "  REJECT: demo passes with change"; exit 1;; esac
